@@ -22,7 +22,7 @@ pub fn property() -> Property {
             Part {
                 name: "incremental",
                 quick: 6_000,
-                thorough: 100_000,
+                thorough: 500_000,
                 single_shard: false, supplementary: false,
                 run: |cfg| run_part(cfg, gen::raw_playout(200), |r| gen::play(r, ClockDomain::Board).to_game(), check_incremental),
                 replay: |v| replay_case::<Game, _>(v, check_incremental),
@@ -30,7 +30,7 @@ pub fn property() -> Property {
             Part {
                 name: "same_key",
                 quick: 6_000,
-                thorough: 100_000,
+                thorough: 500_000,
                 single_shard: false, supplementary: false,
                 run: |cfg| run_part(cfg, gen::raw_playout(120), |r| gen::play(r, ClockDomain::Board).to_game(), check_same_key),
                 replay: |v| replay_case::<Game, _>(v, check_same_key),
@@ -38,7 +38,7 @@ pub fn property() -> Property {
             Part {
                 name: "single_component",
                 quick: 30_000,
-                thorough: 1_000_000,
+                thorough: 5_000_000,
                 single_shard: false, supplementary: false,
                 run: |cfg| run_part(cfg, gen::raw_pos(80), |r| PosCase { fen: gen::position(r, ClockDomain::Keep).fen() }, check_single_component),
                 replay: |v| replay_case::<PosCase, _>(v, check_single_component),
